@@ -142,93 +142,6 @@ Proof.
   repeat split.
 Qed.
 
-(* the hypotheses are satisfiable: the register of the crate's own test *)
-Example C12_capacity_example :
-  let d := [0;38;0;50;95;89;131;200;173;219;207;255;210;64;64;165] in
-  is_csd d /\ v1_capacity_blocks d = Ok 1984000 /\ v1_capacity_bytes d = Ok 1015808000.
-Proof. split; [split; [reflexivity|repeat constructor]|split; vm_compute; reflexivity]. Qed.
-
-(* ==== the driver against LEGALCARD (SdSpec.v): every kind, CRC on or off, every legal timing ==========
-   `Ready o kd csd tim s mem`: driver state s is initialised (card_type = the card's kind), the card
-   of kind kd with register csd, timing oracle tim and memory mem is idle between commands (possibly
-   still busy, below the command budget), and the trace so far is a legal conversation.
-   Hypotheses: legal_timing tim (every card delay below the driver's budget at that point),
-   addressable (every block has a 32-bit address), is_csd csd with CSD_STRUCTURE 0 or 1. *)
-
-(* C12_init: the card kind is identified, for every kind *)
-Theorem C12_init : forall (o : opts) (kd : kind) (csd : list N) (tim : timing),
-  legal_timing tim -> CSD_STRUCTURE csd = 0 \/ CSD_STRUCTURE csd = 1 ->
-  forall mem0 : N -> list N,
-  exists s', check_init card card_spi o (init_st card (power_on kd csd tim mem0)) = (Ok tt, s') /\
-             ctype s' = Some (type_of kd) /\ Ready o kd csd tim s' mem0.
-Proof. exact init_identifies. Qed.
-
-(* C12_read1: a block read returns the 512 bytes stored at that block number; memory unchanged *)
-Theorem C12_read1 : forall (o : opts) (kd : kind) (csd : list N) (tim : timing),
-  legal_timing tim -> addressable kd csd -> CSD_STRUCTURE csd = 0 \/ CSD_STRUCTURE csd = 1 ->
-  forall (s : st card) (mem : N -> list N) (idx : N),
-  Ready o kd csd tim s mem -> mem_ok mem -> idx < spec_capacity_blocks csd ->
-  exists s', read_inner card card_spi o 1 idx s = (Ok [mem idx], s') /\ Ready o kd csd tim s' mem.
-Proof. exact read1_correct. Qed.
-
-(* C12_write1: a block write stores exactly the given bytes at that block number and nowhere else *)
-Theorem C12_write1 : forall (o : opts) (kd : kind) (csd : list N) (tim : timing),
-  legal_timing tim -> addressable kd csd -> CSD_STRUCTURE csd = 0 \/ CSD_STRUCTURE csd = 1 ->
-  forall (s : st card) (mem : N -> list N) (idx : N) (b : list N),
-  Ready o kd csd tim s mem -> length b = 512%nat -> idx < spec_capacity_blocks csd ->
-  exists s', write_inner card card_spi o [b] idx s = (Ok tt, s') /\ Ready o kd csd tim s' (upd_mem mem idx b).
-Proof. exact write1_correct. Qed.
-
-(* C12_multi: a multi-block transfer (any length other than 1, including 0) returns / stores what the
-   same single-block transfers at idx, idx+1, .. do in order: nseq idx n = [idx; idx+1; ..], and
-   write_mem folds upd_mem over the blocks (C12_multi_as_singles) *)
-Theorem C12_multi_read : forall (o : opts) (kd : kind) (csd : list N) (tim : timing),
-  legal_timing tim -> addressable kd csd ->
-  forall (s : st card) (mem : N -> list N) (idx : N) (n : nat),
-  Ready o kd csd tim s mem -> mem_ok mem -> n <> 1%nat ->
-  idx < spec_capacity_blocks csd -> idx + N.of_nat n <= spec_capacity_blocks csd ->
-  exists s', read_inner card card_spi o n idx s = (Ok (map mem (nseq idx n)), s') /\ Ready o kd csd tim s' mem.
-Proof. exact multi_read_correct. Qed.
-
-Theorem C12_multi_write : forall (o : opts) (kd : kind) (csd : list N) (tim : timing),
-  legal_timing tim -> addressable kd csd ->
-  forall (s : st card) (mem : N -> list N) (idx : N) (blocks : list (list N)),
-  Ready o kd csd tim s mem -> Forall (fun x => length x = 512%nat) blocks -> length blocks <> 1%nat ->
-  idx < spec_capacity_blocks csd -> idx + N.of_nat (length blocks) <= spec_capacity_blocks csd ->
-  exists s', write_inner card card_spi o blocks idx s = (Ok tt, s') /\ Ready o kd csd tim s' (write_mem mem idx blocks).
-Proof. exact multi_write_correct. Qed.
-
-Theorem C12_multi_as_singles :
-  (forall (mem : N -> list N) idx n, map mem (nseq idx n) = concat (map (fun i => [mem i]) (nseq idx n))) /\
-  (forall (mem : N -> list N) idx b, write_mem mem idx [b] = upd_mem mem idx b) /\
-  (forall (mem : N -> list N) idx b bs, write_mem mem idx (b :: bs) = write_mem (write_mem mem idx [b]) (idx + 1) bs).
-Proof. exact (conj nseq_single_reads (conj write_mem_single write_mem_cons)). Qed.
-
-(* C12_capacity: num_blocks / num_bytes = the capacity the card's register encodes for the register's
-   own structure version (blocks as a u32: saturated at 2^32-1) - for every kind, so also for a
-   version-2 standard-capacity card with its version-1 register (D17 repaired) *)
-Theorem C12_capacity : forall (o : opts) (kd : kind) (csd : list N) (tim : timing),
-  legal_timing tim -> is_csd csd -> CSD_STRUCTURE csd = 0 \/ CSD_STRUCTURE csd = 1 ->
-  forall (s : st card) (mem : N -> list N), Ready o kd csd tim s mem ->
-  (exists s', num_blocks_inner card card_spi o s = (Ok (N.min (spec_capacity_blocks csd) (2 ^ 32 - 1)), s') /\ Ready o kd csd tim s' mem) /\
-  (exists s', num_bytes_inner card card_spi o s = (Ok (spec_capacity_bytes csd), s') /\ Ready o kd csd tim s' mem).
-Proof. exact capacity_correct. Qed.
-
-(* C12_histories: any sequence of public calls (reads, writes, capacity queries, mark_card_uninit,
-   get_card_type), starting from power-up.  `legal_call`: the transfer lies inside the card
-   (`in_range`: first block below the capacity, last block not beyond it, 512-byte blocks) or starts at
-   or beyond the capacity (any u32 block number; the card rejects the command).  Every call returns
-   what the specification says - `spec_outcome`: Ok with the value of `spec_step`, or ReadError /
-   WriteError for a rejected call - and the card's memory at the end is the specification's. *)
-Theorem C12_histories : forall (o : opts) (kd : kind) (csd : list N) (tim : timing),
-  legal_timing tim -> addressable kd csd -> is_csd csd -> CSD_STRUCTURE csd = 0 \/ CSD_STRUCTURE csd = 1 ->
-  forall (mem0 : N -> list N) (cs : list api_call), mem_ok mem0 -> Forall (legal_call csd) cs ->
-  exists s', run_calls card card_spi o cs [] (init_st card (power_on kd csd tim mem0)) =
-               (rev (spec_values kd csd mem0 cs), s') /\
-             c_mem (dev s') = spec_mem kd csd mem0 cs /\
-             accept (rev (tr s')) = true.
-Proof. exact legal_histories. Qed.
-
 (* the hypotheses are satisfiable: a 32-block version-1 card, constant timing, zeroed memory *)
 Example C12_hypotheses_satisfiable :
   let csd := [0;38;0;50;95;89;128;1;237;216;79;255;210;64;64;91] in
